@@ -321,6 +321,12 @@ func (w *World) sortOf1(t types.Type) string {
 	case *types.Named:
 		switch u := tt.Underlying().(type) {
 		case *types.Struct:
+			if tt.Obj().Pkg() != nil && !strings.HasPrefix(tt.Obj().Pkg().Path(), repoMod) {
+				// a struct type of a library (os.File, atomic.Pointer[T], ...): never taken apart by the
+				// functions under contract, and its fields (blank fields, generic instances) need not
+				// have distinct names -- an opaque value
+				return "Opaque"
+			}
 			name := "S_" + mangle(typeKey(tt))
 			if _, ok := w.dts[name]; !ok {
 				w.sortMemo[t] = name
@@ -382,7 +388,11 @@ func (w *World) declStruct(name string, u *types.Struct, named *types.Named) {
 	w.dtOrder = append(w.dtOrder, name)
 	for i := 0; i < u.NumFields(); i++ {
 		f := u.Field(i)
-		c.Sels = append(c.Sels, name+"__"+f.Name())
+		fname := f.Name()
+		if fname == "_" {
+			fname = fmt.Sprintf("_blank%d", i) // blank fields share the name "_"
+		}
+		c.Sels = append(c.Sels, name+"__"+fname)
 		c.Sorts = append(c.Sorts, w.sortOf(f.Type()))
 	}
 	registerCtor(c)
